@@ -708,6 +708,13 @@ def c05_emit(inputs, doc):
             f = to_payload_frame(sid, Payload(bytes([tag]) * 150), fragment_size_bytes=64)
         elif kind == 'small':
             f = to_payload_frame(sid, Payload(bytes([tag]) * 5), fragment_size_bytes=64)
+        elif kind == 'bigreq':
+            import rsocket.frame as F_
+            f = F_.RequestStreamFrame()
+            f.stream_id = sid
+            f.data = bytes([tag]) * 150
+            f.initial_request_n = 5
+            f.fragment_size_bytes = 64
         elif kind == 'cancel':
             f = to_cancel_frame(sid)
         else:
@@ -717,7 +724,7 @@ def c05_emit(inputs, doc):
             f.data = b'e'
         pass
         return f
-    kinds = ['big', 'small', 'cancel', 'error']
+    kinds = ['big', 'small', 'cancel', 'error', 'bigreq']
     cases = []
     for n in (2, 3):
         for combo in itertools.product([(k, s) for k in kinds for s in (2, 4)], repeat=n):
@@ -746,7 +753,7 @@ def c05_emit(inputs, doc):
                     ident = None
                     for i in srcs:
                         k = combo[i][0]
-                        if k in ('big', 'small') and type(fr).__name__ == 'PayloadFrame' and (fr.data or b'')[:1] == bytes([i + 1]):
+                        if k in ('big', 'small', 'bigreq') and type(fr).__name__ in ('PayloadFrame', 'RequestStreamFrame') and (fr.data or b'')[:1] == bytes([i + 1]):
                             ident = i
                         if k == 'cancel' and type(fr).__name__ == 'CancelFrame' and i not in seen:
                             ident = i if ident is None else ident
